@@ -211,6 +211,12 @@ pub trait Check {
         "exploration"
     }
 
+    /// Runs of this check may kill the worker (stack overflow, abort): statistics are then
+    /// handed to the parent after every run, so that none are lost with the worker.
+    fn crash_prone(&self) -> bool {
+        false
+    }
+
     /// How cases are generated and what makes one non-trivial.
     fn rule(&self) -> &'static str;
 
@@ -230,6 +236,7 @@ pub trait DynCheck: Sync {
     fn shrinks_tape(&self, tape: &str) -> Vec<String>;
     fn crash_violation_tape(&self, tape: &str, kind: &str, stderr: &str) -> Option<Violation>;
     fn level(&self) -> &'static str;
+    fn crash_prone(&self) -> bool;
     fn rule(&self) -> &'static str;
     fn assumptions(&self) -> Vec<&'static str>;
 }
@@ -301,6 +308,10 @@ impl<T: Check + Sync> DynCheck for T {
 
     fn level(&self) -> &'static str {
         Check::level(self)
+    }
+
+    fn crash_prone(&self) -> bool {
+        Check::crash_prone(self)
     }
 
     fn rule(&self) -> &'static str {
